@@ -79,8 +79,9 @@ func c09Trace(plan *Plan, bubble bool, midCall func(), st *Stats) (string, *Viol
 			if every < 1 {
 				every = 1
 			}
+			root := curGID()
 			hook := func() {
-				if settling {
+				if settling || curGID() != root {
 					return
 				}
 				n++
